@@ -159,7 +159,7 @@ func genHeader(r *Rand, allowBig bool) (h bgzfHeader, class string) {
 			cl = append(cl, what+".len511")
 			return genRunes(r, 511, false)
 		case k < 38:
-			cl = append(cl, what+".len512+")
+			cl = append(cl, what+".len>=512")
 			return genRunes(r, 512+r.intn(100), false)
 		case !allowBig: // invalid strings make every block fail: only with single-write scripts (a failed block among several can hang Close: C09)
 			cl = append(cl, what+".ascii")
@@ -534,6 +534,19 @@ func checkC08(c *ctx) {
 		}
 		if single || in.Header.expectedHeaderLen() > 300 || !validRunes(in.Header.Name) || !validRunes(in.Header.Comment) {
 			in.Ops = []string{fmt.Sprintf("w%d", rnd.pick([]int{0, 1, 5, 100, 1 + rnd.intn(3000), bgzfBS - 1, bgzfBS, 1 + rnd.intn(bgzfBS)})), "c"}
+			if i%5 != 0 && rnd.coin(1, 3) && validRunes(in.Header.Name) && validRunes(in.Header.Comment) {
+				// aim the MEMBER size at the 64 KiB limit: Extra sized so that the member is 65534..65538 bytes
+				n := rnd.pick([]int{0, 1, 100, 1 + rnd.intn(3000), 1 + rnd.intn(40000)})
+				in.Ops = []string{fmt.Sprintf("w%d", n), "c"}
+				fl := len(flateOf(in.Level, scriptData(in.Data, in.DataSeed, n)))
+				in.Header.Extra = ""
+				target := 65536 + rnd.pick([]int{-2, -1, 0, 0, 1, 1, 2})
+				xl := target - in.Header.expectedHeaderLen() - fl - 8
+				if xl >= 4 && xl <= 65529 {
+					in.Header.Extra = hexs(genSubfields(rnd, xl))
+					hclass += "+extra.member-at-64KiB"
+				}
+			}
 		} else {
 			in.Ops = genWriteScript(rnd, 6, rnd.coin(1, 6))
 		}
